@@ -3,8 +3,10 @@
     1. finish every pending election (deliver its vote requests and responses to everybody who can take them, end it),
     2. if some node that is up leads: the leader with the highest term (smallest id among equals) ticks (heartbeat) and
        every message in flight is delivered in id order (requests whose target is down or blocked are dropped),
-       otherwise the next node in rotation (round number modulo the number of ready nodes) times out twice and runs
-       an election with everybody.
+       otherwise the ready node with the most up-to-date log (smallest id among equals) times out twice and runs an
+       election with everybody.  (A plain rotation is NOT enough for the code as it is: `broadcast_vote_requests` aborts
+       an election with `LogConflict` as soon as one responder with a more up-to-date log denies, even when the other
+       grants are a majority, and a rotation can then leapfrog terms forever — see Props/C32.lean `tally_aborts_despite_majority`.)
   The harness (harness/src/bin/cluster/sim.rs `ev_heal`) applies the same rule to the real nodes.
 -/
 import DEngine.Model.Cluster
@@ -32,6 +34,20 @@ def bestLeader (c : Cluster) : Option NodeId :=
       | some b => if nd.term > (c.nodes b).term then some i else some b
     else best) none
 
+/-- the ready node with the most up-to-date log (last term, then last index; smallest id among equals): the node whose
+    election timer fires in a round without a leader -/
+def bestCandidate (c : Cluster) : Option NodeId :=
+  (nodeIds c).foldl (fun best i =>
+    let nd := c.nodes i
+    if nd.ready then
+      match best with
+      | none => some i
+      | some b =>
+        let lb := lastPair (c.nodes b).log
+        let li := lastPair nd.log
+        if li.2 > lb.2 || (li.2 == lb.2 && li.1 > lb.1) then some i else some b
+    else best) none
+
 def smallestMsg (c : Cluster) : Option (Nat × Msg) :=
   c.msgs.foldl (fun best x => match best with
     | none => some x
@@ -55,8 +71,7 @@ def fairRound (c : Cluster) (r : Nat) : Cluster :=
     let c2 := (step c1 (.tick l)).1
     deliverAll (2 * c2.msgs.length + 2) c2
   | none =>
-    let ready := (nodeIds c1).filter fun i => (c1.nodes i).ready
-    match ready[r % ready.length]? with
+    match bestCandidate c1 with
     | some cand => runEvents c1 ([Event.tick cand, Event.tick cand] ++ electionEvents c1 cand)
     | none => c1
 
